@@ -103,7 +103,7 @@ def correspondence(ctx):
     from gstools.tools import geometric as G
 
     rng = np.random.RandomState(ctx.seed + 1200)
-    ncase = ctx.scale(220, 2500)
+    ncase = ctx.scale(600, 6000)
     ops, checks = [], []          # checks: (what, case, expected (python), comparator kind)
     dist = {}
 
@@ -461,7 +461,6 @@ def search(ctx, deep=False):
         ipos = ref_iso_matrix(dim, ang, anis) @ pos     # independent of model.isometrize and of the padding code
         kind = ["srf", "srf_struct", "krige_simple", "krige_ordinary", "krige_universal", "krige_extdrift", "condsrf",
                 "vector", "fourier_modes"][t % 9]
-        pipes[kind] = pipes.get(kind, 0) + 1
         try:
             with warnings.catch_warnings():
                 warnings.simplefilter("ignore")
@@ -551,6 +550,7 @@ def search(ctx, deep=False):
         except Exception as e:   # the pipeline itself failed: not a C12 matter unless only the anisotropic one fails
             ctx.log(f"search: {kind} {Mcls.__name__} dim={dim} raised {type(e).__name__}: {e}")
             continue
+        pipes[kind] = pipes.get(kind, 0) + 1
         if not ok:
             _viol(viol, f"pipeline:{kind}", f"{kind} with anisotropic rotated model at x != isotropic model at S⁻¹Rᵀx", case)
     return {"evaluations": ev, "violations": viol,
